@@ -38,7 +38,7 @@ def family(err):
     return None
 
 
-PRES_PASSES = [("anf", "lift", "anf")]     # (pass, input stage, output stage)
+PRES_PASSES = [("mono", "core", "mono"), ("anf", "lift", "anf")]     # (pass, input stage, output stage)
 
 
 def run_pres(ctx, progs):
@@ -101,6 +101,46 @@ def run_pres(ctx, progs):
     return agg
 
 
+def run_pres_match(ctx):
+    """`matchc_preserves_closed` on the REAL match sites: `gv c06` dumps every pattern matrix the compiler's
+    match compiler was given (corpus, generated programs, generated matrices) with the Core it emitted;
+    `gomlmodel c03presmatch` evaluates the decidable hypotheses on the matrix, closedness of the model's tree
+    (the conclusion) and closedness of the REAL Core expression (implementation-level oracle)."""
+    ok, out = ctx.gv("c06")
+    tsv = os.path.join(ctx.run_dir, "c06.cases.tsv")
+    if not ok or not os.path.exists(tsv):
+        ctx.broken_ties.append(("gv c06 (for c03presmatch)", (out or "")[-500:]))
+        return {}, {}
+    p = vlib.srun(["bash", "-c", f"ulimit -s unlimited; exec {vlib.MODEL} c03presmatch"], stdin=open(tsv),
+                  stdout=subprocess.PIPE, stderr=subprocess.PIPE, text=True, timeout=3000)
+    if p.returncode != 0:
+        ctx.broken_ties.append(("model driver c03presmatch", p.stderr[-1000:]))
+    a = {"sites": 0}
+    open_real = {}
+    for l in p.stdout.split("\n"):
+        f = l.split("\t")
+        if len(f) < 3:
+            if l.startswith("#") or (len(f) == 2 and "error" in f[1]):
+                ctx.broken_ties.append(("c03presmatch driver", l[:200]))
+            continue
+        a["sites"] += 1
+        kv = dict(x.split("=", 1) for x in f[1:] if "=" in x)
+        for key in ("hyp", "closed_model", "closed_real", "contra"):
+            a[key] = a.get(key, 0) + int(kv.get(key, "0"))
+        a["model_" + kv.get("model", "?")] = a.get("model_" + kv.get("model", "?"), 0) + 1
+        a["real_" + kv.get("real", "?")] = a.get("real_" + kv.get("real", "?"), 0) + 1
+        if kv.get("contra") == "1":
+            ctx.broken_ties.append(("c03presmatch theorem instance", f"{f[0]}: hypotheses hold but the model's tree is open"))
+        if kv.get("real") == "core" and kv.get("closed_real") == "0":
+            open_real[f[0]] = kv
+        if kv.get("hyp") == "0":
+            a.setdefault("sites_outside_the_hypothesis", []).append(f[0])
+    if "sites_outside_the_hypothesis" in a:
+        lst = a["sites_outside_the_hypothesis"]
+        a["sites_outside_the_hypothesis"] = {"count": len(lst), "first": lst[:5]}
+    return a, open_real
+
+
 def collect(ctx):
     ok, out = ctx.gv("c03")
     rows = vlib.read_tsv(os.path.join(ctx.run_dir, "c03.cases.tsv")) if ok else []
@@ -146,6 +186,11 @@ def run(ctx):
     res = run_model(ctx, [f"{k}|{st}\t{sx}" for k, d in progs.items() for st, sx in d["wt"].items()])
 
     pres = run_pres(ctx, progs)
+    pres["matchc"], open_sites = run_pres_match(ctx)
+    for sid, kv in sorted(open_sites.items())[:20]:
+        ctx.report({"oracle": "match-output-closed", "stage": "core"},
+                   "the expression the match compiler emitted for a match site mentions a variable that no enclosing binder binds",
+                   {"id": sid, "site": kv})
 
     n_dumps = n_wt = n_closed = 0
     per_stage = {st: [0, 0] for st in STAGES}
